@@ -117,7 +117,7 @@ def run_property(ctx, which, props_file):
     thorough = ctx.tier == 'thorough'
     ctx.trusted += TRUSTED
     ctx.assumptions += ASSUME
-    ok = ctx.build(props_file, extra=['Expect/Run.v'])
+    ok = ctx.build(props_file, extra=['Expect/Run.v', 'Compose/Run.v'] if which in ('C01', 'C04') else ['Expect/Run.v'])
     have_model = os.path.exists(os.path.join(common.COQ, 'Expect/Run.vo'))
     if have_model:
         pysem(ctx)
